@@ -294,7 +294,33 @@ pub fn cmd_run(prop: &str, tier: Tier) -> i32 {
                 Tier::Thorough => 3 * 3600,
             }),
     );
-    let jobs = (check.build)(&ctx, tier, seed);
+    let mut jobs = (check.build)(&ctx, tier, seed);
+    // regression: every replay of a defect that was found and repaired is re-run under this
+    // property's oracle (a fixed entry suppresses nothing)
+    let mut regress: Vec<Scenario> = vec![];
+    if let Ok(rd) = std::fs::read_dir("/verif/findings") {
+        let mut files: Vec<_> = rd.filter_map(|e| e.ok()).map(|e| e.path()).collect();
+        files.sort();
+        for f in files {
+            if f.extension().map(|x| x == "replay").unwrap_or(false) {
+                if let Ok(t) = std::fs::read_to_string(&f) {
+                    match Scenario::from_text(&t) {
+                        Ok(sc) if (check.admissible)(&sc) => regress.push(sc),
+                        Ok(_) => {}
+                        Err(e) => {
+                            eprintln!("HARNESS-ERROR: cannot parse {}: {}", f.display(), e);
+                            return 2;
+                        }
+                    }
+                }
+            }
+        }
+    }
+    if !regress.is_empty() {
+        let r = Arc::new(regress);
+        let n = r.len();
+        jobs.insert(0, runner::Job { label: "regression: replays of repaired defects (findings/*.replay)".into(), n, gen: Box::new(move |i| r[i].clone()) });
+    }
     let mut stats = Stats::default();
     let mut found: Vec<Found> = vec![];
     let prop_s: &'static str = check.prop;
@@ -410,4 +436,72 @@ pub fn cmd_replay(prop: &str, path: &str, trace: bool) -> i32 {
     }
     ctx.cleanup();
     code
+}
+
+/// determinism self-test: print one digest line per scenario; the caller runs this in two fresh
+/// processes with different worker counts and diffs the output
+pub fn cmd_selftest_digests(n: usize, workers: usize) -> i32 {
+    use crate::gen::{self, Knobs};
+    use crate::prng::{mix, Rng};
+    let seed = seed_from_env();
+    let ctx = Ctx::new(workers);
+    let out: std::sync::Mutex<Vec<(usize, u64, usize)>> = std::sync::Mutex::new(vec![]);
+    let next = std::sync::atomic::AtomicUsize::new(0);
+    std::thread::scope(|s| {
+        for w in 0..workers {
+            let out = &out;
+            let next = &next;
+            let ctx = &ctx;
+            s.spawn(move || {
+                crate::world::install_panic_hook();
+                loop {
+                    let i = next.fetch_add(1, std::sync::atomic::Ordering::Relaxed);
+                    if i >= n {
+                        break;
+                    }
+                    let sc = checks::selftest_scenario(seed, i);
+                    let text = sc.to_text();
+                    let done = std::sync::Arc::new(std::sync::atomic::AtomicBool::new(false));
+                    let d2 = done.clone();
+                    std::thread::spawn(move || {
+                        for _ in 0..300 {
+                            std::thread::sleep(Duration::from_millis(100));
+                            if d2.load(std::sync::atomic::Ordering::Relaxed) {
+                                return;
+                            }
+                        }
+                        let p = format!("/verif/replays/selftest-hang-{}.replay", std::process::id());
+                        let _ = std::fs::create_dir_all("/verif/replays");
+                        let _ = std::fs::write(&p, text);
+                        eprintln!("HARNESS-ERROR: selftest scenario {} hangs (wall-clock); written to {}", i, p);
+                        std::process::exit(2);
+                    });
+                    let rec = crate::world::run(&sc, &ctx.root(w), &ctx.opts);
+                    done.store(true, std::sync::atomic::Ordering::Relaxed);
+                    let mut h = 0xcbf2_9ce4_8422_2325u64;
+                    for l in analysis::render(&rec, usize::MAX) {
+                        h = crate::prng::fnv_add(h, l.as_bytes());
+                    }
+                    h = crate::prng::fnv_add(h, format!("{:?}{:?}{}", rec.probes, rec.daemon_alive, rec.end_vt).as_bytes());
+                    for fs in &rec.fs_final {
+                        for (p, c) in fs {
+                            h = crate::prng::fnv_add(h, p.as_bytes());
+                            if let Some(c) = c {
+                                h = crate::prng::fnv_add(h, c);
+                            }
+                        }
+                    }
+                    out.lock().unwrap().push((i, h, rec.events.len()));
+                }
+            });
+        }
+    });
+    let _ = (mix as fn(u64, u64) -> u64, Rng::new as fn(u64) -> Rng, gen::pair_cfg as fn(&mut Rng, &Knobs) -> Scenario);
+    let mut v = out.into_inner().unwrap();
+    v.sort();
+    for (i, h, n) in v {
+        println!("{} {:016x} {}", i, h, n);
+    }
+    ctx.cleanup();
+    0
 }
